@@ -924,7 +924,7 @@ class Mutations:
         )
         individual.theta_0 = torch.cat(
             [w.flatten() for w in exp_layer.parameters() if w.requires_grad]
-        )
+        ).detach()
 
         # create matrix that is copy of sigma inv
         # first go through old params, figure out which to remove, then remove any difference
